@@ -166,6 +166,10 @@ def rerun_in_fresh_interpreter(module, task, hashseed='12345', timeout=600):
     raise RuntimeError(f'fresh-interpreter rerun produced no result (rc={p.returncode}): {p.stderr[-2000:]}')
 
 
+class IsolatedTimeout(RuntimeError):
+    """The forked run did not finish within its deadline and was killed (it was stuck in C code)."""
+
+
 def isolated(fn, *args, hang_s=300):
     """Run ``fn(*args)`` in a forked child and return its (picklable) result.
 
@@ -174,9 +178,14 @@ def isolated(fn, *args, hang_s=300):
     (which the harness cannot know about or reset), in caches or in the allocator dies with the
     child, so a run never depends on the runs that preceded it in the worker - and a replay in a
     fresh interpreter starts from the same state.
+
+    The parent enforces the deadline with SIGKILL: a child stuck inside C code that does not poll
+    for signals (catastrophic regex backtracking - property C07's subject - does exactly that) can
+    neither run a Python-level signal handler nor be reached by a watchdog thread.
     """
 
     import pickle
+    import select
     import signal
     r, w = os.pipe()
     sys.stdout.flush()
@@ -186,10 +195,22 @@ def isolated(fn, *args, hang_s=300):
         code = 0
         try:
             os.close(r)
+            try:
+                import ctypes
+                ctypes.CDLL(None).prctl(1, signal.SIGKILL)   # PR_SET_PDEATHSIG: never outlive the worker
+            except Exception:  # noqa: BLE001
+                pass
+            # do not keep the pool's pipes / sentinels of the worker alive
+            for fd in range(3, 128):
+                if fd != w:
+                    try:
+                        os.close(fd)
+                    except OSError:
+                        pass
             # NB: faulthandler's watchdog must not be touched here: its thread does not exist in the child and
-            # cancelling it would wait for it forever.  The child's own watchdog is SIGALRM (default action: die).
+            # cancelling it would wait for it forever.
             from sim import env as _env
-            _env.set_outer_deadline(hang_s)
+            _env.set_outer_deadline(hang_s + 30)
             try:
                 out = ('ok', fn(*args))
             except BaseException:  # noqa: BLE001
@@ -203,19 +224,43 @@ def isolated(fn, *args, hang_s=300):
             os._exit(code)
     os.close(w)
     chunks = []
-    with os.fdopen(r, 'rb') as f:
+    deadline = time.monotonic() + hang_s
+    killed = False
+    with os.fdopen(r, 'rb', buffering=0) as f:
         while True:
+            left = deadline - time.monotonic()
+            if left <= 0:
+                try:
+                    os.kill(pid, signal.SIGKILL)
+                except ProcessLookupError:
+                    pass
+                killed = True
+                break
+            ready, _, _ = select.select([f], [], [], min(left, 5.0))
+            if not ready:
+                continue
             b = f.read(1 << 16)
             if not b:
                 break
             chunks.append(b)
     _, status = os.waitpid(pid, 0)
+    if killed:
+        raise IsolatedTimeout(f'isolated run exceeded {hang_s}s and was killed')
     data = b''.join(chunks)
     if not data:
         sig = os.WTERMSIG(status) if os.WIFSIGNALED(status) else None
-        raise RuntimeError(f'isolated run died without a result (status={status}, signal={sig}); '
-                           'a hang inside the run is reported by the child\'s faulthandler on stderr')
+        raise RuntimeError(f'isolated run died without a result (status={status}, signal={sig})')
     kind, val = pickle.loads(data)
     if kind == 'error':
         raise RuntimeError('exception inside isolated run:\n' + val)
     return val
+
+
+def merge_isolated(agg, digest_key, fn, *args, hang_s=90):
+    """Run one seeded run in a forked child and merge its Agg; a run killed at its deadline is counted, not fatal."""
+
+    try:
+        agg.merge(isolated(fn, *args, hang_s=hang_s))
+    except IsolatedTimeout:
+        agg.count('discarded:killed-at-deadline(stuck-in-C-code)')
+        agg.digests[digest_key] = 'discarded'
